@@ -7,7 +7,7 @@ ID = 'C12'
 TARGETS = ['MindsVerif.Props.C12']
 THEOREMS = ['MindsVerif.Props.C12.' + n for n in (
     'C12_count', 'C12_fill', 'C12_textual', 'C12_execute', 'C12_mismatch', 'C12_partial', 'phi12',
-    'C12_witness_update', 'C12_witness_from_arg', 'C12_case_operand', 'C12_second_execute', 'C12_info_after_execute', 'C12_keeps_alias')]
+    'C12_witness_update', 'C12_from_arg', 'C12_case_operand', 'C12_second_execute', 'C12_info_after_execute', 'C12_keeps_alias')]
 ASSUME = [
     'get_query_params / fill_query_params = the walker model (C13) with the visitors cbFind / cbFill; prepare / execute / '
     'get_statement_info are hand-transcribed (Model/Params.lean); tie = correspondence stream (find, fill with n and n-1 '
